@@ -211,6 +211,7 @@ def gen_tls_conn(R, cid, cfg, used, pair=None, **epkw):
                               (N.range(0, 5), 10)])
     conn["tcp"] = {"isn_c": isn(), "isn_s": isn(), "ctl": N.chance(80), "fin": N.chance(70), "opts": N.chance(40),
                    "cutmode": "record"}
+    conn["tcp"]["psh_mode"] = R.fork("pshmode").weighted([("all", 35), ("last", 45), ("random", 20)])
     if not cfg.get("isn_wrap", True):
         conn["tcp"]["isn_c"] = N.range(1, 1 << 30)
         conn["tcp"]["isn_s"] = N.range(1, 1 << 30)
